@@ -514,11 +514,12 @@ pub fn lower_case(input_string_value: &Value) -> Value {
 pub fn matches(input_string_value: &Value, pattern_string_value: &Value, flags_string_value: &Value) -> Value {
   if let Value::String(input_string) = input_string_value {
     if let Value::String(pattern_string) = pattern_string_value {
-      if let Value::String(flags_string) = flags_string_value {
-        if let Ok(re) = Regex::new(format!("(?{}){}", flags_string, pattern_string).as_str()) {
-          return Value::Boolean(re.is_match(input_string));
-        }
-      } else if let Ok(re) = Regex::new(pattern_string) {
+      let pattern = match flags_string_value {
+        Value::String(flags_string) if !flags_string.is_empty() => format!("(?{}){}", flags_string, pattern_string),
+        Value::String(_) | Value::Null(_) => pattern_string.clone(),
+        _ => return value_null!("matches: flags must be a string"),
+      };
+      if let Ok(re) = Regex::new(&pattern) {
         return Value::Boolean(re.is_match(input_string));
       }
     }
@@ -816,6 +817,9 @@ pub fn replace(input_string_value: &Value, pattern_string_value: &Value, replace
           replacement_string.clone()
         };
         // check and use flags
+        if !matches!(flags_string_value, Value::String(_) | Value::Null(_)) {
+          return value_null!("replace: flags must be a string");
+        }
         if let Value::String(flags_string) = flags_string_value {
           let mut flags = "".to_string();
           let mut flag_q = false;
